@@ -474,10 +474,67 @@ def _tree(task):
     return acc.freeze_sets()
 
 
+def bystander_loaders():
+    """Documents whose loading must not touch unrelated live aggregators (name -> thunk giving the document)."""
+    import histogrammar as hg
+    from histogrammar.util import named
+
+    pos = named("positive", lambda d: d > 0)
+    val = named("value", lambda d: d)
+    return {
+        "Select": lambda: hg.Select(pos, hg.Sum(val)).toJson(),
+        "Fraction": lambda: hg.Fraction(pos, hg.Sum(val)).toJson(),
+        "Bin": lambda: hg.Bin(2, 0.0, 2.0, val, hg.Average(named("other", lambda d: d))).toJson(),
+        "SparselyBin": lambda: hg.SparselyBin(1.0, val).toJson(),
+        "CentrallyBin": lambda: hg.CentrallyBin([0.0, 1.0], val).toJson(),
+        "IrregularlyBin": lambda: hg.IrregularlyBin([0.0, 1.0], val).toJson(),
+        "Stack": lambda: hg.Stack([0.0, 1.0], val).toJson(),
+        "Categorize": lambda: hg.Categorize(named("cat", lambda d: str(d))).toJson(),
+        "Label": lambda: hg.Label(a=hg.Sum(val), b=hg.Sum(pos)).toJson(),
+        "UntypedLabel": lambda: hg.UntypedLabel(a=hg.Sum(val), b=hg.Minimize(pos)).toJson(),
+        "Index": lambda: hg.Index(hg.Sum(val), hg.Sum(pos)).toJson(),
+        "Branch": lambda: hg.Branch(hg.Sum(val), hg.Deviate(pos)).toJson(),
+        "Bag": lambda: hg.Bag(val, "N").toJson(),
+        "Minimize": lambda: hg.Minimize(val).toJson(),
+    }
+
+
+def check_bystanders(name):
+    """fromJson / toImmutable of one aggregator leaves every other live aggregator exactly as it was - in particular
+    those built with default arguments, which all start from the same module-level default objects."""
+    import histogrammar as hg
+
+    args = {"bystander_loader": name}
+    out = []
+    try:
+        doc = bystander_loaders()[name]()
+        live = {"Sum()": hg.Sum(), "Average()": hg.Average(), "Bin(2,0,2)": hg.Bin(2, 0.0, 2.0), "SparselyBin(1)": hg.SparselyBin(1.0),
+                "Select(cut=Count())": hg.Select(lambda d: d > 0), "Categorize()": hg.Categorize(), "Bag(range='N')": hg.Bag(range="N"),
+                "Label(a=Sum())": hg.Label(a=hg.Sum(), b=hg.Sum())}
+        for k, o in live.items():
+            o.fill("one" if k == "Categorize()" else 1.0)
+        before = {k: (o.toJson(), repr(o.quantity.name) if hasattr(o, "quantity") else None) for k, o in live.items()}
+        r1 = hg.Factory.fromJson(doc)
+        r2 = hg.Factory.fromJson(doc)
+        for k, o in live.items():
+            d = C.diff(o.toJson(), before[k][0], tol_keys=())
+            if d:
+                out.append(core.v_diff(PROP, "bystander", "live %s changed when a %s document was loaded" % (k, name), d,
+                                       o.toJson(), args))
+        # the two reloads are independent objects too
+        if hasattr(r1, "quantity") and r1.quantity is r2.quantity and r1.quantity is not None:
+            out.append(FW.violation(PROP, "bystander", "two reloads of a %s document" % name, "share-their-quantity-object", args, {}))
+    except Exception as e:
+        out.append(core.v_exc(PROP, "bystander", "raised", e, args))
+    return out
+
+
 def _misc(task):
     kind, name = task
     acc = FW.Acc()
-    if kind == "constructor":
+    if kind == "bystander":
+        acc.add(check_bystanders(name))
+    elif kind == "constructor":
         acc.add(check_constructor(name))
     elif kind == "template":
         acc.add(check_template(name))
@@ -511,6 +568,7 @@ def run(tier, seed):
     ts = trees(tier)
     tasks = [("tree", (t, tier)) for t in ts]
     tasks += [("misc", ("constructor", n)) for n, _ in constructors()]
+    tasks += [("misc", ("bystander", n)) for n in bystander_loaders()]
     tasks += [("misc", ("template", n)) for n in TEMPLATE_PARENTS]
     tasks += [("misc", ("dfmethod", n)) for n in DF_METHODS]
     accs = FW.pmap(_dispatch, tasks, seed)
@@ -539,6 +597,8 @@ def run(tier, seed):
 
 
 def replay(driver, args):
+    if "bystander_loader" in args:
+        return check_bystanders(args["bystander_loader"])
     if "constructor" in args:
         return check_constructor(args["constructor"])
     if "template_parent" in args:
